@@ -72,32 +72,38 @@ package exif2
 //@ pool bufferPool *buffer
 
 //@ func (*ifdReader).fastRead
-//@   props C01 C02 C08 C06
+//@   props C01 C02 C08 C06 C03
 //@   requires irOK(ir) && n >= 0
 //@   modifies ir.po, stream(ir.reader), ir.buffer.buf
 //@   ensures [C06] anchor(ir) == old(anchor(ir))
 //@   ensures [C02 C08] err == nil ==> pos(ir.reader) == old(pos(ir.reader)) + n
 //@   ensures [C02] pos(ir.reader) >= old(pos(ir.reader))
 //@   ensures [C01 C08] err == nil ==> len(buf) == n
+//@   ensures [C03 C08] err == nil ==> forall k int :: 0 <= k && k < n ==> buf[k] == data(ir.reader, old(pos(ir.reader)) + k)
+//@   ensures [C03] err == nil ==> ir.po == old(ir.po) + uint32(n)
 
 //@ func (*ifdReader).discard
-//@   props C01 C02 C08 C06
+//@   props C01 C02 C08 C06 C03
 //@   requires irOK(ir)
 //@   modifies ir.po, stream(ir.reader), ir.buffer.buf
 //@   ensures [C06] anchor(ir) == old(anchor(ir))
+//@   ensures [C03] err == nil && n >= 0 && int(old(ir.po)) + n <= int(ir.exifLength) ==> ir.po == old(ir.po) + uint32(n)
 //@   ensures [C02] pos(ir.reader) >= old(pos(ir.reader))
 //@   loop 0 decreases ite(err == nil, n, 0)
 //@   loop 0 invariant pos(ir.reader) >= old(pos(ir.reader))
+//@   loop 0 invariant old(n) >= 0 && int(old(ir.po)) + old(n) <= int(ir.exifLength) ==> n >= 0 && ir.po + uint32(n) == old(ir.po) + uint32(old(n))
 //@   loop 0 invariant anchor(ir) == old(anchor(ir))
 
 //@ func (*ifdReader).readTagValue
-//@   props C01 C02 C06
+//@   props C01 C02 C06 C03
 //@   requires irOK(ir) && ir.buffer.pos < 84
 //@   modifies ir.po, stream(ir.reader), ir.buffer.buf
 //@   ensures [C06] anchor(ir) == old(anchor(ir))
 //@   ensures [C02] err == nil ==> pos(ir.reader) >= old(pos(ir.reader)) + len(buf)
 //@   ensures [C02] pos(ir.reader) >= old(pos(ir.reader))
 //@   ensures [C01] err == nil ==> len(buf) == int(ir.buffer.tag[ir.buffer.pos].Size())
+//@   ensures [C03] err == nil ==> forall k int :: 0 <= k && k < len(buf) ==> buf[k] == data(ir.reader, pos(ir.reader) - len(buf) + k)
+//@   ensures [C03] err == nil && ir.buffer.tag[ir.buffer.pos].ValueOffset >= old(ir.po) && ir.buffer.tag[ir.buffer.pos].ValueOffset <= ir.exifLength ==> ir.po == ir.buffer.tag[ir.buffer.pos].ValueOffset + uint32(len(buf))
 
 //@ func (*ifdReader).seekToTag
 //@   props C01 C02 C06
@@ -165,12 +171,23 @@ package exif2
 //@   ensures [C06] anchor(ir) == old(anchor(ir))
 //@   ensures [C02] pos(ir.reader) >= old(pos(ir.reader))
 
+// C03 values stored out of line: a RATIONAL is two 32-bit numbers (numerator, denominator) in the directory's byte order
+// (TIFF 6.0 section 2, types 5 and 10) at the tag's value offset. The decoders below read them with readTagValue, which
+// fetches the value at payload offset ValueOffset (its contract); here the value is addressed by where the reader stands
+// afterwards: the RATIONAL that ends at the current position.
+//@ spec u32ord(o, r, p) = ite(o == utils.BigEndian, be32At(r, p), le32At(r, p))
+//@ spec ratNum(ir, t) = u32ord(t.ByteOrder, ir.reader, pos(ir.reader) - int(t.Size()))
+//@ spec ratDen(ir, t) = u32ord(t.ByteOrder, ir.reader, pos(ir.reader) - int(t.Size()) + 4)
+//@ spec isRat(t) = (t.Type == tag.TypeRational || t.Type == tag.TypeSignedRational) && !t.IsEmbedded()
+
 //@ func (*ifdReader).ParseRationalU
-//@   props C01 C02 C06
+//@   props C01 C02 C06 C03
 //@   requires tagPre(ir, t)
 //@   modifies ir.po, stream(ir.reader), ir.buffer.buf
 //@   ensures [C06] anchor(ir) == old(anchor(ir))
 //@   ensures [C02] pos(ir.reader) >= old(pos(ir.reader))
+//@   ensures [C03] isRat(t) ==> (r0[0] == 0 && r0[1] == 0) || (r0[0] == ratNum(ir, t) && r0[1] == ratDen(ir, t))
+//@   ensures [C03] !(t.Type == tag.TypeRational || t.Type == tag.TypeSignedRational) ==> r0[0] == 0 && r0[1] == 0 && pos(ir.reader) == old(pos(ir.reader))
 
 //@ func (*ifdReader).ParseString
 //@   props C01 C02 C06
@@ -194,32 +211,39 @@ package exif2
 //@   ensures [C02] pos(ir.reader) >= old(pos(ir.reader))
 
 //@ func (*ifdReader).parseAperture
-//@   props C01 C02 C06
+//@   props C01 C02 C06 C03
 //@   requires tagPre(ir, t)
 //@   modifies ir.po, stream(ir.reader), ir.buffer.buf
 //@   ensures [C06] anchor(ir) == old(anchor(ir))
 //@   ensures [C02] pos(ir.reader) >= old(pos(ir.reader))
+//@   ensures [C03] isRat(t) ==> same(r0, meta.Aperture(float32(uint32(0)) / float32(uint32(0)))) || same(r0, meta.Aperture(float32(ratNum(ir, t)) / float32(ratDen(ir, t))))
+//@   ensures [C03] !(t.Type == tag.TypeRational || t.Type == tag.TypeSignedRational) ==> r0 == 0
 
 //@ func (*ifdReader).parseExposureBias
-//@   props C01 C02 C06
+//@   props C01 C02 C06 C03
 //@   requires tagPre(ir, t)
 //@   modifies ir.po, stream(ir.reader), ir.buffer.buf
 //@   ensures [C06] anchor(ir) == old(anchor(ir))
 //@   ensures [C02] pos(ir.reader) >= old(pos(ir.reader))
+//@   ensures [C03] isRat(t) ==> r0 == meta.NewExposureBias(0, 0) || r0 == meta.NewExposureBias(int16(ratNum(ir, t)), int16(ratDen(ir, t)))
 
 //@ func (*ifdReader).parseExposureTime
-//@   props C01 C02 C06
+//@   props C01 C02 C06 C03
 //@   requires tagPre(ir, t)
 //@   modifies ir.po, stream(ir.reader), ir.buffer.buf
 //@   ensures [C06] anchor(ir) == old(anchor(ir))
 //@   ensures [C02] pos(ir.reader) >= old(pos(ir.reader))
+//@   ensures [C03] isRat(t) ==> same(r0, meta.ExposureTime(float32(uint32(0)) / float32(uint32(0)))) || same(r0, meta.ExposureTime(float32(ratNum(ir, t)) / float32(ratDen(ir, t))))
+//@   ensures [C03] !(t.Type == tag.TypeRational || t.Type == tag.TypeSignedRational) ==> r0 == 0
 
 //@ func (*ifdReader).parseFocalLength
-//@   props C01 C02 C06
+//@   props C01 C02 C06 C03
 //@   requires tagPre(ir, t)
 //@   modifies ir.po, stream(ir.reader), ir.buffer.buf
 //@   ensures [C06] anchor(ir) == old(anchor(ir))
 //@   ensures [C02] pos(ir.reader) >= old(pos(ir.reader))
+//@   ensures [C03] isRat(t) ==> same(r0, meta.FocalLength(float32(uint32(0)) / float32(uint32(0)))) || same(r0, meta.FocalLength(float32(ratNum(ir, t)) / float32(ratDen(ir, t))))
+//@   ensures [C03] t.Type == tag.TypeShort || t.Type == tag.TypeLong ==> same(r0, meta.FocalLength(float32(u32val(t)) / float32(uint32(1))))
 
 //@ func (*ifdReader).parseGPSDateStamp
 //@   props C01 C02 C06
@@ -243,9 +267,9 @@ package exif2
 //@   ensures [C02] pos(ir.reader) >= old(pos(ir.reader))
 
 //@ func (*ifdReader).ParseCameraModel
-//@   props C01 C02 C06
+//@   props C01 C02 C06 C03
 //@   requires tagPre(ir, t)
-//@   modifies ir.po, stream(ir.reader), ir.buffer.buf, ir.Exif
+//@   modifies ir.po, stream(ir.reader), ir.buffer.buf, ir.Exif.CameraModel
 //@   ensures [C06] anchor(ir) == old(anchor(ir))
 //@   ensures [C02] pos(ir.reader) >= old(pos(ir.reader))
 
@@ -262,12 +286,69 @@ package exif2
 //@   props C01 C04 C05
 //@   modifies nothing
 
+// C03 dispatch: which tag sets which field. (a) fields whose value sits in the entry itself (SHORT/LONG, TIFF 6.0 section 2:
+// left-justified in the value slot) get exactly that value - u16val/u32val restate the ParseUint16/32 contracts;
+// (b) every reported field changes ONLY when the tag the Exif specification assigns to it (Exif 2.32 tables 4, 8, 15;
+// TIFF 6.0 section 8) is being parsed: unknown or unrelated tags perturb nothing.
+//@ spec u16val(t) = ite(t.IsEmbedded() && t.Type == tag.TypeShort, slotShort0(t.ValueOffset, t.ByteOrder), 0)
+//@ spec u32val(t) = ite(t.Type == tag.TypeLong, t.ValueOffset, ite(t.Type == tag.TypeShort, uint32(slotShort0(t.ValueOffset, t.ByteOrder)), 0))
+
 //@ func (*ifdReader).parseTag
 //@   props C01 C02 C03 C06
 //@   requires tagPre(ir, t)
 //@   modifies ir.po, stream(ir.reader), ir.buffer.buf, ir.Exif
 //@   ensures [C06] anchor(ir) == old(anchor(ir))
 //@   ensures [C02] pos(ir.reader) >= old(pos(ir.reader))
+//@   ensures [C03] ir.customTagParser == nil && (t.Ifd == ifds.IFD0 && t.ID == ifds.Orientation) ==> ir.Exif.Orientation == meta.Orientation(u16val(t))
+//@   ensures [C03] ir.customTagParser == nil && (t.Ifd == ifds.IFD0 && t.ID == ifds.StripOffsets) ==> ir.Exif.StripOffsets == u32val(t)
+//@   ensures [C03] ir.customTagParser == nil && (t.Ifd == ifds.IFD0 && t.ID == ifds.StripByteCounts) ==> ir.Exif.StripByteCounts == u32val(t)
+//@   ensures [C03] ir.customTagParser == nil && (t.Ifd == ifds.ExifIFD && t.ID == exififd.ExposureProgram) ==> ir.Exif.ExposureProgram == meta.ExposureProgram(u16val(t))
+//@   ensures [C03] ir.customTagParser == nil && (t.Ifd == ifds.ExifIFD && t.ID == exififd.ExposureMode) ==> ir.Exif.ExposureMode == meta.ExposureMode(u16val(t))
+//@   ensures [C03] ir.customTagParser == nil && (t.Ifd == ifds.ExifIFD && t.ID == exififd.MeteringMode) ==> ir.Exif.MeteringMode == meta.MeteringMode(u16val(t))
+//@   ensures [C03] ir.customTagParser == nil && (t.Ifd == ifds.ExifIFD && t.ID == ifds.Flash) ==> ir.Exif.Flash == meta.Flash(u16val(t))
+//@   ensures [C03] ir.customTagParser == nil && (t.Ifd == ifds.ExifIFD && t.ID == exififd.ISOSpeedRatings) ==> ir.Exif.ISOSpeed == u32val(t)
+//@   ensures [C03] ir.customTagParser == nil && (t.Ifd == ifds.IFD0 && t.ID == ifds.ImageWidth) ==> ir.Exif.ImageWidth == uint16(u32val(t))
+//@   ensures [C03] ir.customTagParser == nil && (t.Ifd == ifds.IFD0 && t.ID == ifds.ImageLength) ==> ir.Exif.ImageHeight == uint16(u32val(t))
+//@   ensures [C03] ir.customTagParser == nil && (t.Ifd == ifds.ExifIFD && t.ID == exififd.PixelXDimension) ==> ir.Exif.ImageWidth == ite(old(ir.Exif.ImageWidth) == 0, uint16(u32val(t)), old(ir.Exif.ImageWidth))
+//@   ensures [C03] ir.customTagParser == nil && (t.Ifd == ifds.ExifIFD && t.ID == exififd.PixelYDimension) ==> ir.Exif.ImageHeight == ite(old(ir.Exif.ImageHeight) == 0, uint16(u32val(t)), old(ir.Exif.ImageHeight))
+//@   ensures [C03] ir.customTagParser == nil && !((t.Ifd == ifds.IFD0 && t.ID == ifds.Orientation)) ==> same(ir.Exif.Orientation, old(ir.Exif.Orientation))
+//@   ensures [C03] ir.customTagParser == nil && !((t.Ifd == ifds.IFD0 && t.ID == ifds.StripOffsets)) ==> same(ir.Exif.StripOffsets, old(ir.Exif.StripOffsets))
+//@   ensures [C03] ir.customTagParser == nil && !((t.Ifd == ifds.IFD0 && t.ID == ifds.StripByteCounts)) ==> same(ir.Exif.StripByteCounts, old(ir.Exif.StripByteCounts))
+//@   ensures [C03] ir.customTagParser == nil && !((t.Ifd == ifds.ExifIFD && t.ID == exififd.ExposureProgram)) ==> same(ir.Exif.ExposureProgram, old(ir.Exif.ExposureProgram))
+//@   ensures [C03] ir.customTagParser == nil && !((t.Ifd == ifds.ExifIFD && t.ID == exififd.ExposureMode)) ==> same(ir.Exif.ExposureMode, old(ir.Exif.ExposureMode))
+//@   ensures [C03] ir.customTagParser == nil && !((t.Ifd == ifds.ExifIFD && t.ID == exififd.MeteringMode)) ==> same(ir.Exif.MeteringMode, old(ir.Exif.MeteringMode))
+//@   ensures [C03] ir.customTagParser == nil && !((t.Ifd == ifds.ExifIFD && t.ID == ifds.Flash)) ==> same(ir.Exif.Flash, old(ir.Exif.Flash))
+//@   ensures [C03] ir.customTagParser == nil && !((t.Ifd == ifds.ExifIFD && t.ID == exififd.ISOSpeedRatings)) ==> same(ir.Exif.ISOSpeed, old(ir.Exif.ISOSpeed))
+//@   ensures [C03] ir.customTagParser == nil && !((t.Ifd == ifds.IFD0 && t.ID == ifds.ImageWidth) || (t.Ifd == ifds.ExifIFD && t.ID == exififd.PixelXDimension)) ==> same(ir.Exif.ImageWidth, old(ir.Exif.ImageWidth))
+//@   ensures [C03] ir.customTagParser == nil && !((t.Ifd == ifds.IFD0 && t.ID == ifds.ImageLength) || (t.Ifd == ifds.ExifIFD && t.ID == exififd.PixelYDimension)) ==> same(ir.Exif.ImageHeight, old(ir.Exif.ImageHeight))
+//@   ensures [C03] ir.customTagParser == nil && !((t.Ifd == ifds.ExifIFD && t.ID == exififd.FNumber) || (t.Ifd == ifds.ExifIFD && t.ID == exififd.ApertureValue)) ==> same(ir.Exif.FNumber, old(ir.Exif.FNumber))
+//@   ensures [C03] ir.customTagParser == nil && !((t.Ifd == ifds.ExifIFD && t.ID == exififd.ExposureTime)) ==> same(ir.Exif.ExposureTime, old(ir.Exif.ExposureTime))
+//@   ensures [C03] ir.customTagParser == nil && !((t.Ifd == ifds.ExifIFD && t.ID == exififd.ExposureBiasValue)) ==> same(ir.Exif.ExposureBias, old(ir.Exif.ExposureBias))
+//@   ensures [C03] ir.customTagParser == nil && !((t.Ifd == ifds.ExifIFD && t.ID == ifds.FocalLength)) ==> same(ir.Exif.FocalLength, old(ir.Exif.FocalLength))
+//@   ensures [C03] ir.customTagParser == nil && !((t.Ifd == ifds.ExifIFD && t.ID == exififd.FocalLengthIn35mmFilm)) ==> same(ir.Exif.FocalLengthIn35mmFormat, old(ir.Exif.FocalLengthIn35mmFormat))
+//@   ensures [C03] ir.customTagParser == nil && !((t.Ifd == ifds.IFD0 && t.ID == ifds.Make)) ==> same(ir.Exif.CameraMake, old(ir.Exif.CameraMake))
+//@   ensures [C03] ir.customTagParser == nil && !((t.Ifd == ifds.IFD0 && t.ID == ifds.Model)) ==> same(ir.Exif.CameraModel, old(ir.Exif.CameraModel))
+//@   ensures [C03] ir.customTagParser == nil && !((t.Ifd == ifds.IFD0 && t.ID == ifds.DNGVersion)) ==> same(ir.Exif.ImageType, old(ir.Exif.ImageType))
+//@   ensures [C03] ir.customTagParser == nil && !((t.Ifd == ifds.GPSIFD && t.ID == gpsifd.GPSAltitudeRef)) ==> same(ir.Exif.GPS.altitudeRef, old(ir.Exif.GPS.altitudeRef))
+//@   ensures [C03] ir.customTagParser == nil && !((t.Ifd == ifds.GPSIFD && t.ID == gpsifd.GPSLatitudeRef)) ==> same(ir.Exif.GPS.latitudeRef, old(ir.Exif.GPS.latitudeRef))
+//@   ensures [C03] ir.customTagParser == nil && !((t.Ifd == ifds.GPSIFD && t.ID == gpsifd.GPSLongitudeRef)) ==> same(ir.Exif.GPS.longitudeRef, old(ir.Exif.GPS.longitudeRef))
+//@   ensures [C03] ir.customTagParser == nil && !((t.Ifd == ifds.GPSIFD && t.ID == gpsifd.GPSAltitude)) ==> same(ir.Exif.GPS.altitude, old(ir.Exif.GPS.altitude))
+//@   ensures [C03] ir.customTagParser == nil && !((t.Ifd == ifds.GPSIFD && t.ID == gpsifd.GPSLatitude)) ==> same(ir.Exif.GPS.latitude, old(ir.Exif.GPS.latitude))
+//@   ensures [C03] ir.customTagParser == nil && !((t.Ifd == ifds.GPSIFD && t.ID == gpsifd.GPSLongitude)) ==> same(ir.Exif.GPS.longitude, old(ir.Exif.GPS.longitude))
+//@   ensures [C03] ir.customTagParser == nil && !((t.Ifd == ifds.GPSIFD && t.ID == gpsifd.GPSTimeStamp)) ==> same(ir.Exif.GPS.time, old(ir.Exif.GPS.time))
+//@   ensures [C03] ir.customTagParser == nil && !((t.Ifd == ifds.ExifIFD && t.ID == exififd.SubSecTime)) ==> same(ir.Exif.Time.subSecTime, old(ir.Exif.Time.subSecTime))
+//@   ensures [C03] ir.customTagParser == nil && !((t.Ifd == ifds.ExifIFD && t.ID == exififd.SubSecTimeOriginal)) ==> same(ir.Exif.Time.subSecTimeOriginal, old(ir.Exif.Time.subSecTimeOriginal))
+//@   ensures [C03] ir.customTagParser == nil && !((t.Ifd == ifds.ExifIFD && t.ID == exififd.SubSecTimeDigitized)) ==> same(ir.Exif.Time.subSecTimeDigitized, old(ir.Exif.Time.subSecTimeDigitized))
+//@   ensures [C03] ir.customTagParser == nil && !((t.Ifd == ifds.IFD0 && t.ID == ifds.Artist) || (t.Ifd == ifds.ExifIFD && t.ID == exififd.CameraOwnerName)) ==> same(ir.Exif.Artist, old(ir.Exif.Artist))
+//@   ensures [C03] ir.customTagParser == nil && !((t.Ifd == ifds.IFD0 && t.ID == ifds.Copyright)) ==> same(ir.Exif.Copyright, old(ir.Exif.Copyright))
+//@   ensures [C03] ir.customTagParser == nil && !((t.Ifd == ifds.IFD0 && t.ID == ifds.Software)) ==> same(ir.Exif.Software, old(ir.Exif.Software))
+//@   ensures [C03] ir.customTagParser == nil && !((t.Ifd == ifds.IFD0 && t.ID == ifds.ImageDescription)) ==> same(ir.Exif.ImageDescription, old(ir.Exif.ImageDescription))
+//@   ensures [C03] ir.customTagParser == nil && !((t.Ifd == ifds.IFD0 && t.ID == ifds.Make)) ==> same(ir.Exif.Make, old(ir.Exif.Make))
+//@   ensures [C03] ir.customTagParser == nil && !((t.Ifd == ifds.IFD0 && t.ID == ifds.Model)) ==> same(ir.Exif.Model, old(ir.Exif.Model))
+//@   ensures [C03] ir.customTagParser == nil && !((t.Ifd == ifds.ExifIFD && t.ID == exififd.LensMake)) ==> same(ir.Exif.LensMake, old(ir.Exif.LensMake))
+//@   ensures [C03] ir.customTagParser == nil && !((t.Ifd == ifds.ExifIFD && t.ID == exififd.LensModel)) ==> same(ir.Exif.LensModel, old(ir.Exif.LensModel))
+//@   ensures [C03] ir.customTagParser == nil && !((t.Ifd == ifds.ExifIFD && t.ID == exififd.LensSerialNumber)) ==> same(ir.Exif.LensSerial, old(ir.Exif.LensSerial))
+//@   ensures [C03] ir.customTagParser == nil && !((t.Ifd == ifds.IFD0 && t.ID == ifds.CameraSerialNumber) || (t.Ifd == ifds.ExifIFD && t.ID == exififd.BodySerialNumber)) ==> same(ir.Exif.CameraSerial, old(ir.Exif.CameraSerial))
 
 //@ func (*ifdReader).readNextIfdTag
 //@   props C01 C02 C06
